@@ -1,18 +1,721 @@
+(* C10/Proofs.v — lemmas and invariants for the HA election / failover model *)
 From OV Require Import Common.Base C10.Model.
 From Coq Require Import ZifyBool ZifyNat ZifyN.
 Local Open Scope Z_scope.
 
-(* winsElection on the true priorities is antisymmetric when the node ids differ *)
-Lemma wins_antisym : forall ida idb ea eb : _,
-  ida <> idb ->
-  forall ca cb na nb,
-  c_id ca = ida -> c_id cb = idb ->
-  n_eff na = ea -> n_eff nb = eb -> n_pprio na = eb -> n_pprio nb = ea ->
-  wins ca na idb = negb (wins cb nb ida).
+(* ------------------------------------------------------------------ election *)
+Definition wins_raw (id : N) (eff pp : Z) (pid : N) : bool :=
+  if negb (eff =? pp) then pp <? eff else (id <? pid)%N.
+
+Lemma wins_eq c n pid : wins c n pid = wins_raw (c_id c) (n_eff n) (n_pprio n) pid.
+Proof. reflexivity. Qed.
+
+Lemma wins_raw_antisym ida idb ea eb :
+  ida <> idb -> wins_raw idb eb ea ida = negb (wins_raw ida ea eb idb).
 Proof.
-  intros ida idb ea eb Hne ca cb na nb Ha Hb Hea Heb Hpa Hpb.
-  unfold wins. rewrite Ha, Hb, Hea, Heb, Hpa, Hpb.
+  intros Hne. unfold wins_raw.
   destruct (Z.eqb_spec ea eb) as [E|E]; destruct (Z.eqb_spec eb ea) as [E'|E']; try lia; cbn [negb].
   - destruct (N.ltb_spec ida idb), (N.ltb_spec idb ida); cbn; try reflexivity; lia.
   - destruct (Z.ltb_spec eb ea), (Z.ltb_spec ea eb); cbn; try reflexivity; lia.
 Qed.
+
+(* winsElection on the true priorities is antisymmetric when the node ids differ *)
+Lemma wins_antisym : forall ca cb na nb,
+  c_id ca <> c_id cb ->
+  n_pprio na = n_eff nb -> n_pprio nb = n_eff na ->
+  wins ca na (c_id cb) = negb (wins cb nb (c_id ca)).
+Proof.
+  intros ca cb na nb Hne Hpa Hpb. rewrite !wins_eq, Hpa, Hpb.
+  rewrite (wins_raw_antisym (c_id ca) (c_id cb)) by exact Hne. now rewrite Bool.negb_involutive.
+Qed.
+
+Definition one_active (sa sb : sst) : bool := xorb (is_active sa) (is_active sb).
+
+(* two nodes in READY that know each other's true priority elect exactly one ACTIVE *)
+Lemma elect_exactly_one : forall ca cb na nb,
+  c_id ca <> c_id cb -> n_st na = Ready -> n_st nb = Ready ->
+  n_pprio na = n_eff nb -> n_pprio nb = n_eff na ->
+  let sa := n_st (fst (elect ca na (c_id cb))) in
+  let sb := n_st (fst (elect cb nb (c_id ca))) in
+  (sa = Active /\ sb = Standby) \/ (sa = Standby /\ sb = Active).
+Proof.
+  intros ca cb na nb Hne Ha Hb Hpa Hpb. cbn zeta.
+  unfold elect. rewrite Ha, Hb. rewrite (wins_antisym ca cb na nb Hne Hpa Hpb).
+  destruct (wins cb nb (c_id ca)); cbn [negb]; unfold transition_to; rewrite ?Ha, ?Hb; cbn; auto.
+Qed.
+
+(* ------------------------------------------------------------------ handlePeerHeartbeat, finite core *)
+Definition upd_core (v : variant) (pre : bool) (st mst : sst) (w : bool) : sst :=
+  if pre && sst_eqb st Standby && w then Active
+  else if sst_eqb st Active && (sst_eqb mst Active || (fix_fc v && sst_eqb mst ActiveSolo)) && negb w then Standby
+  else if fix_hb v && sst_eqb st Standby && sst_eqb mst Standby && w then Active
+  else st.
+
+Definition hb_core (v : variant) (pre first : bool) (st mst : sst) (w : bool) : sst :=
+  if first || sst_eqb st Waiting || sst_eqb st ActiveSolo then
+    match st with
+    | Waiting | ActiveSolo | StandbyAlone | Ready => if w then Active else Standby
+    | _ => if fix_fc v then upd_core v pre st mst w else st
+    end
+  else upd_core v pre st mst w.
+
+(* the behaviour of handlePeerHeartbeat depends on the priorities and node ids only through
+   the outcome of winsElection on the priority carried by the heartbeat *)
+Lemma handle_hb_spec v c n m :
+  fst (handle_hb v c n m) =
+  mkNode (hb_core v (c_preempt c) (negb (n_pknown n)) (n_st n) (h_st m)
+                  (wins_raw (c_id c) (n_eff n) (h_prio m) (h_id m)))
+         (n_eff n) (h_prio m) (Some (h_st m)) true (n_cnt n) (n_down n).
+Proof.
+  destruct n as [st eff pp ps pk cnt dn], m as [mid mst mp mreq], v as [fh fi ff].
+  unfold handle_hb, hb_core, upd_core.
+  destruct st, pk; cbn;
+    unfold peer_discovered, elect, hb_update, transition_to, wins, wins_raw, set_pknown, set_peer, set_st;
+    cbn [n_st n_eff n_pprio n_pst n_pknown n_cnt n_down h_id h_st h_prio h_req fix_hb fix_if fix_fc];
+    set (W := if negb (eff =? mp) then mp <? eff else (c_id c <? mid)%N);
+    destruct (c_preempt c), fh, ff, mst, W; reflexivity.
+Qed.
+
+(* ------------------------------------------------------------------ exchanges on the finite abstraction *)
+(* (state A, peer-known A, state B, peer-known B) *)
+Definition astate := (sst * bool * sst * bool)%type.
+Definition absn (ab : node * node) : astate :=
+  (n_st (fst ab), n_pknown (fst ab), n_st (snd ab), n_pknown (snd ab)).
+
+(* wa = "A wins the election on the true priorities"; B's answer is its negation *)
+Definition cxchg (v : variant) (pa pb wa : bool) (w : who) (x : astate) : astate :=
+  let '(sa, ka, sb, kb) := x in
+  match w with
+  | A => let sb' := hb_core v pb (negb kb) sb sa (negb wa) in
+         let sa' := hb_core v pa (negb ka) sa sb' wa in (sa', true, sb', true)
+  | B => let sa' := hb_core v pa (negb ka) sa sb wa in
+         let sb' := hb_core v pb (negb kb) sb sa' (negb wa) in (sa', true, sb', true)
+  end.
+Definition ccrossed (v : variant) (pa pb wa : bool) (x : astate) : astate :=
+  let '(sa, ka, sb, kb) := x in
+  (hb_core v pa (negb ka) sa sb wa, true, hb_core v pb (negb kb) sb sa (negb wa), true).
+Fixpoint cxchgs (v : variant) (pa pb wa : bool) (ws : list who) (x : astate) : astate :=
+  match ws with [] => x | w :: r => cxchgs v pa pb wa r (cxchg v pa pb wa w x) end.
+
+Definition a_wins (cs : cfgs) (ab : node * node) : bool :=
+  wins_raw (c_id (fst cs)) (n_eff (fst ab)) (n_eff (snd ab)) (c_id (snd cs)).
+
+Lemma xchg_abs v cs w ab :
+  c_id (fst cs) <> c_id (snd cs) ->
+  absn (xchg v cs w ab) = cxchg v (c_preempt (fst cs)) (c_preempt (snd cs)) (a_wins cs ab) w (absn ab)
+  /\ n_eff (fst (xchg v cs w ab)) = n_eff (fst ab) /\ n_eff (snd (xchg v cs w ab)) = n_eff (snd ab).
+Proof.
+  intros Hne. destruct ab as [a b], cs as [ca cb]. unfold xchg, absn, cxchg, a_wins, snapshot.
+  destruct w; rewrite !handle_hb_spec;
+    cbn [fst snd n_st n_eff n_pprio n_pst n_pknown n_cnt n_down h_id h_st h_prio h_req];
+    rewrite (wins_raw_antisym (c_id ca) (c_id cb) (n_eff a) (n_eff b) Hne); auto.
+Qed.
+
+Lemma xchg_crossed_abs v cs ab :
+  c_id (fst cs) <> c_id (snd cs) ->
+  absn (xchg_crossed v cs ab) = ccrossed v (c_preempt (fst cs)) (c_preempt (snd cs)) (a_wins cs ab) (absn ab).
+Proof.
+  intros Hne. destruct ab as [a b], cs as [ca cb]. unfold xchg_crossed, absn, ccrossed, a_wins, snapshot.
+  rewrite !handle_hb_spec;
+    cbn [fst snd n_st n_eff n_pprio n_pst n_pknown n_cnt n_down h_id h_st h_prio h_req];
+    rewrite (wins_raw_antisym (c_id ca) (c_id cb) (n_eff a) (n_eff b) Hne); auto.
+Qed.
+
+Lemma xchgs_abs v cs ws : forall ab,
+  c_id (fst cs) <> c_id (snd cs) ->
+  absn (xchgs v cs ws ab) = cxchgs v (c_preempt (fst cs)) (c_preempt (snd cs)) (a_wins cs ab) ws (absn ab).
+Proof.
+  induction ws as [|w r IH]; intros ab Hne; cbn [xchgs cxchgs]; [reflexivity|].
+  destruct (xchg_abs v cs w ab Hne) as (H1 & H2 & H3).
+  rewrite IH by exact Hne. rewrite H1. unfold a_wins. now rewrite H2, H3.
+Qed.
+
+Definition settled (s : sst) : bool := match s with Init | Ready => false | _ => true end.
+Definition a_one_active (x : astate) : bool := let '(sa, _, sb, _) := x in one_active sa sb.
+Definition a_states (x : astate) : sst * sst := let '(sa, _, sb, _) := x in (sa, sb).
+
+(* dual active resolves within ONE exchange (either initiator, or crossed) *)
+Lemma core_dual_active v pa pb wa sa ka sb kb :
+  fix_fc v = true -> is_active sa = true -> is_active sb = true ->
+  a_one_active (cxchg v pa pb wa A (sa, ka, sb, kb)) = true /\
+  a_one_active (cxchg v pa pb wa B (sa, ka, sb, kb)) = true /\
+  a_one_active (ccrossed v pa pb wa (sa, ka, sb, kb)) = true.
+Proof.
+  destruct v as [fh fi ff]; cbn [fix_fc]; intros -> Ha Hb.
+  destruct sa; try discriminate Ha; destruct sb; try discriminate Hb;
+    destruct ka, kb, pa, pb, wa, fh; cbn; auto.
+Qed.
+
+(* without the repair: the pairs that are still dual-active after one exchange exist *)
+Lemma core_dual_active_current_code :
+  a_one_active (cxchg Defective false false true A (ActiveSolo, false, Active, true)) = false /\
+  a_one_active (cxchg Defective false false false B (Active, false, ActiveSolo, false)) = false.
+Proof. split; reflexivity. Qed.
+
+(* ... but two exchanges always suffice, also for the current code *)
+Lemma core_dual_active_two v pa pb wa sa ka sb kb w1 w2 :
+  is_active sa = true -> is_active sb = true ->
+  a_one_active (cxchgs v pa pb wa [w1; w2] (sa, ka, sb, kb)) = true.
+Proof.
+  destruct v as [fh fi ff]; intros Ha Hb.
+  destruct sa; try discriminate Ha; destruct sb; try discriminate Hb;
+    destruct ka, kb, pa, pb, wa, fh, ff, w1, w2; reflexivity.
+Qed.
+
+(* ------------------------------------------------------------------ no stable headless pair *)
+(* finite quantification by evaluation *)
+Definition all_bool (f : bool -> bool) : bool := f true && f false.
+Definition all_who (f : who -> bool) : bool := f A && f B.
+Definition all_settled (f : sst -> bool) : bool :=
+  forallb f [Waiting; Active; Standby; ActiveSolo; StandbyAlone].
+Lemma all_bool_ok f : all_bool f = true -> forall b, f b = true.
+Proof. unfold all_bool; intros H b; apply andb_prop in H; destruct b; tauto. Qed.
+Lemma all_who_ok f : all_who f = true -> forall w, f w = true.
+Proof. unfold all_who; intros H w; apply andb_prop in H; destruct w; tauto. Qed.
+Lemma all_settled_ok f : all_settled f = true -> forall s, settled s = true -> f s = true.
+Proof.
+  unfold all_settled; intros H s Hs. rewrite forallb_forall in H. apply H.
+  destruct s; try discriminate Hs; cbn; tauto.
+Qed.
+
+Definition astate_eqb (x y : astate) : bool :=
+  let '(a, b, c, d) := x in let '(a', b', c', d') := y in
+  sst_eqb a a' && Bool.eqb b b' && sst_eqb c c' && Bool.eqb d d'.
+Lemma sst_eqb_eq x y : sst_eqb x y = true -> x = y.
+Proof. destruct x, y; cbn; intros H; try reflexivity; discriminate H. Qed.
+Lemma astate_eqb_eq x y : astate_eqb x y = true -> x = y.
+Proof.
+  destruct x as [[[a b] c] d], y as [[[a' b'] c'] d']; cbn.
+  intros H. repeat (apply andb_prop in H; destruct H as [H ?]).
+  apply sst_eqb_eq in H. apply sst_eqb_eq in H1. apply Bool.eqb_prop in H0. apply Bool.eqb_prop in H2.
+  now subst.
+Qed.
+
+(* a started node; STANDBY_ALONE is only ever held by a node that has lost its peer
+   (peerNodeID = ""): invariant [run_wf] below *)
+Definition okn (s : sst) (k : bool) : bool := settled s && negb (sst_eqb s StandbyAlone && k).
+
+Definition conv_check (fi ff pa pb wa : bool) (sa : sst) (ka : bool) (sb : sst) (kb : bool) (w1 w2 w3 : who) : bool :=
+  let v := mkVariant true fi ff in
+  let r := cxchgs v pa pb wa [w1; w2; w3] (sa, ka, sb, kb) in
+  implb (okn sa ka && okn sb kb)
+    (a_one_active r && astate_eqb (cxchg v pa pb wa A r) r && astate_eqb (cxchg v pa pb wa B r) r).
+Definition conv_all : bool :=
+  all_bool (fun fi => all_bool (fun ff => all_bool (fun pa => all_bool (fun pb => all_bool (fun wa =>
+  all_settled (fun sa => all_bool (fun ka => all_settled (fun sb => all_bool (fun kb =>
+  all_who (fun w1 => all_who (fun w2 => all_who (fun w3 =>
+    conv_check fi ff pa pb wa sa ka sb kb w1 w2 w3)))))))))))).
+Lemma conv_all_true : conv_all = true.
+Proof. vm_compute. reflexivity. Qed.
+
+(* with the dual-standby repair: from ANY pair of started nodes, three fresh exchanges (any
+   initiators) reach a pair with exactly one active node that further exchanges do not move *)
+Lemma core_converges v pa pb wa sa ka sb kb w1 w2 w3 :
+  fix_hb v = true -> okn sa ka = true -> okn sb kb = true ->
+  let r := cxchgs v pa pb wa [w1; w2; w3] (sa, ka, sb, kb) in
+  a_one_active r = true /\ cxchg v pa pb wa A r = r /\ cxchg v pa pb wa B r = r.
+Proof.
+  destruct v as [fh fi ff]; cbn [fix_hb]; intros -> Ha0 Hb0.
+  assert (Ha : settled sa = true) by (unfold okn in Ha0; apply andb_prop in Ha0; tauto).
+  assert (Hb : settled sb = true) by (unfold okn in Hb0; apply andb_prop in Hb0; tauto).
+  pose proof conv_all_true as H. unfold conv_all in H.
+  apply all_bool_ok with (b := fi) in H. apply all_bool_ok with (b := ff) in H.
+  apply all_bool_ok with (b := pa) in H. apply all_bool_ok with (b := pb) in H.
+  apply all_bool_ok with (b := wa) in H.
+  apply all_settled_ok with (s := sa) in H; [|exact Ha]. apply all_bool_ok with (b := ka) in H.
+  apply all_settled_ok with (s := sb) in H; [|exact Hb]. apply all_bool_ok with (b := kb) in H.
+  apply all_who_ok with (w := w1) in H. apply all_who_ok with (w := w2) in H.
+  apply all_who_ok with (w := w3) in H.
+  unfold conv_check in H. cbn zeta in *. rewrite Ha0, Hb0 in H. cbn [andb implb] in H.
+  apply andb_prop in H; destruct H as [H H3]. apply andb_prop in H; destruct H as [H1 H2].
+  split; [exact H1|]. split; apply astate_eqb_eq; assumption.
+Qed.
+
+(* a pair in contact whose states are not moved by fresh exchanges has exactly one active node *)
+Lemma core_fixpoint_has_active v pa pb wa sa sb :
+  fix_hb v = true -> okn sa true = true -> okn sb true = true ->
+  a_states (cxchg v pa pb wa A (sa, true, sb, true)) = (sa, sb) ->
+  a_states (cxchg v pa pb wa B (sa, true, sb, true)) = (sa, sb) ->
+  one_active sa sb = true.
+Proof.
+  destruct v as [fh fi ff]; cbn [fix_hb]; intros -> Ha Hb.
+  destruct sa; try discriminate Ha; destruct sb; try discriminate Hb;
+    destruct pa, pb, wa, ff; cbn; intros H1 H2; try reflexivity; try discriminate H1; try discriminate H2.
+Qed.
+
+(* the current code: STANDBY/STANDBY without preempt is a fix-point of both exchanges *)
+Lemma core_dual_standby_current_code wa :
+  cxchg Defective false false wa A (Standby, true, Standby, true) = (Standby, true, Standby, true) /\
+  cxchg Defective false false wa B (Standby, true, Standby, true) = (Standby, true, Standby, true).
+Proof. destruct wa; split; reflexivity. Qed.
+
+(* ------------------------------------------------------------------ lifting to nodes *)
+Definition n_ok (n : node) : bool := okn (n_st n) (n_pknown n).
+Definition pair_one_active (ab : node * node) : bool := one_active (n_st (fst ab)) (n_st (snd ab)).
+
+Lemma a_one_active_absn ab : a_one_active (absn ab) = pair_one_active ab.
+Proof. reflexivity. Qed.
+
+Lemma dual_active_resolves v cs a b :
+  fix_fc v = true -> c_id (fst cs) <> c_id (snd cs) ->
+  is_active (n_st a) = true -> is_active (n_st b) = true ->
+  pair_one_active (xchg v cs A (a, b)) = true /\
+  pair_one_active (xchg v cs B (a, b)) = true /\
+  pair_one_active (xchg_crossed v cs (a, b)) = true.
+Proof.
+  intros Hf Hne Ha Hb. rewrite <- !a_one_active_absn.
+  rewrite (proj1 (xchg_abs v cs A (a, b) Hne)), (proj1 (xchg_abs v cs B (a, b) Hne)),
+    (xchg_crossed_abs v cs (a, b) Hne).
+  apply core_dual_active; assumption.
+Qed.
+
+Lemma dual_active_resolves_two v cs a b w1 w2 :
+  c_id (fst cs) <> c_id (snd cs) ->
+  is_active (n_st a) = true -> is_active (n_st b) = true ->
+  pair_one_active (xchgs v cs [w1; w2] (a, b)) = true.
+Proof.
+  intros Hne Ha Hb. rewrite <- a_one_active_absn, (xchgs_abs v cs [w1; w2] (a, b) Hne).
+  apply core_dual_active_two; assumption.
+Qed.
+
+Lemma converges v cs a b w1 w2 w3 :
+  fix_hb v = true -> c_id (fst cs) <> c_id (snd cs) -> n_ok a = true -> n_ok b = true ->
+  let r := xchgs v cs [w1; w2; w3] (a, b) in
+  pair_one_active r = true /\ absn (xchg v cs A r) = absn r /\ absn (xchg v cs B r) = absn r.
+Proof.
+  intros Hf Hne Ha Hb r.
+  pose proof (core_converges v (c_preempt (fst cs)) (c_preempt (snd cs)) (a_wins cs (a, b))
+                (n_st a) (n_pknown a) (n_st b) (n_pknown b) w1 w2 w3 Hf Ha Hb) as H.
+  cbn zeta in H. destruct H as (H1 & H2 & H3).
+  assert (Hr : absn r = cxchgs v (c_preempt (fst cs)) (c_preempt (snd cs)) (a_wins cs (a, b)) [w1; w2; w3] (absn (a, b)))
+    by (apply xchgs_abs; exact Hne).
+  assert (Hw : a_wins cs r = a_wins cs (a, b)).
+  { unfold r. cbn [xchgs].
+    destruct (xchg_abs v cs w1 (a, b) Hne) as (_ & E1 & E1').
+    destruct (xchg_abs v cs w2 (xchg v cs w1 (a, b)) Hne) as (_ & E2 & E2').
+    destruct (xchg_abs v cs w3 (xchg v cs w2 (xchg v cs w1 (a, b))) Hne) as (_ & E3 & E3').
+    unfold a_wins. now rewrite E3, E3', E2, E2', E1, E1'. }
+  split; [rewrite <- a_one_active_absn, Hr; exact H1|].
+  rewrite (proj1 (xchg_abs v cs A r Hne)), (proj1 (xchg_abs v cs B r Hne)), Hw, Hr.
+  split; assumption.
+Qed.
+
+Lemma fixpoint_has_active v cs a b :
+  fix_hb v = true -> c_id (fst cs) <> c_id (snd cs) ->
+  n_ok a = true -> n_ok b = true -> n_pknown a = true -> n_pknown b = true ->
+  (forall w, n_st (fst (xchg v cs w (a, b))) = n_st a /\ n_st (snd (xchg v cs w (a, b))) = n_st b) ->
+  pair_one_active (a, b) = true.
+Proof.
+  intros Hf Hne Ha Hb Ka Kb Hfix. unfold n_ok in Ha, Hb. rewrite Ka in Ha. rewrite Kb in Hb.
+  apply (core_fixpoint_has_active v (c_preempt (fst cs)) (c_preempt (snd cs)) (a_wins cs (a, b)) _ _ Hf Ha Hb).
+  - destruct (Hfix A) as [E1 E2]. pose proof (proj1 (xchg_abs v cs A (a, b) Hne)) as H.
+    unfold absn in H. cbn [fst snd] in H. rewrite Ka, Kb in H. rewrite <- H. unfold a_states. rewrite E1, E2. reflexivity.
+  - destruct (Hfix B) as [E1 E2]. pose proof (proj1 (xchg_abs v cs B (a, b) Hne)) as H.
+    unfold absn in H. cbn [fst snd] in H. rewrite Ka, Kb in H. rewrite <- H. unfold a_states. rewrite E1, E2. reflexivity.
+Qed.
+
+(* ------------------------------------------------------------------ events *)
+Lemma run_snoc v cs es : forall s e, run v cs s (es ++ [e]) = fst (step v cs (run v cs s es) e).
+Proof. induction es as [|x r IH]; intros s e; cbn [run app]; [reflexivity | apply IH]. Qed.
+
+Lemma node_of_set_node w w' s n :
+  node_of w (set_node w' s n) = if who_eqb w w' then n else node_of w s.
+Proof. destruct w, w'; reflexivity. Qed.
+Lemma node_of_set_queue w w' s q : node_of w (set_queue w' s q) = node_of w s.
+Proof. destruct w, w'; reflexivity. Qed.
+Lemma queue_to_set_queue w s q : queue_to w (set_queue w s q) = q.
+Proof. destruct w; reflexivity. Qed.
+
+(* what one event does to the node of w *)
+Definition step_node_fn (v : variant) (cs : cfgs) (s : pair) (e : ev) (w : who) : node :=
+  let n := node_of w s in
+  let c := cfg_of w cs in
+  match e with
+  | EStart w' => if who_eqb w w' then fst (sm_start n) else n
+  | ESend _ | EDrop _ _ => n
+  | EDeliver w' i =>
+      if who_eqb w w' then
+        match nth_error (queue_to w s) (i mod length (queue_to w s))%nat with
+        | Some m => fst (handle_hb v c n m)
+        | None => n
+        end
+      else n
+  | EPeerLost w' => if who_eqb w w' then fst (handle_peer_lost n) else n
+  | EIf w' k d => if who_eqb w w' then fst (handle_if v c n k d) else n
+  | ESwLocal w' f => if who_eqb w w' then fst (switchover n f) else n
+  | ESwRemote w' => if who_eqb w w' then fst (switchover n false) else n
+  end.
+
+Lemma step_node v cs s e w : node_of w (fst (step v cs s e)) = step_node_fn v cs s e w.
+Proof.
+  unfold step, step_node_fn. destruct e as [w'|w'|w' i|w' i|w'|w' k d|w' f|w'].
+  - destruct (sm_start (node_of w' s)) as [n t] eqn:E. cbn [fst]. rewrite node_of_set_node.
+    destruct w, w'; cbn [who_eqb]; try reflexivity; now rewrite E.
+  - cbn [fst]. now rewrite node_of_set_queue.
+  - destruct w, w'; cbn [who_eqb];
+      (destruct (nth_error _ _) as [m|]; [|reflexivity]);
+      rewrite ?node_of_set_queue;
+      match goal with |- context [handle_hb ?a ?b ?c ?d] => destruct (handle_hb a b c d) as [n t] eqn:E end;
+      destruct (h_req m); cbn [fst]; rewrite ?node_of_set_queue, ?node_of_set_node; cbn [who_eqb];
+      try reflexivity;
+      destruct s; cbn in *; rewrite ?E; reflexivity.
+  - destruct (queue_to w' s); cbn [fst]; [reflexivity | now rewrite node_of_set_queue].
+  - destruct (handle_peer_lost (node_of w' s)) as [n t] eqn:E. cbn [fst]. rewrite node_of_set_node.
+    destruct w, w'; cbn [who_eqb]; try reflexivity; now rewrite E.
+  - destruct (handle_if v (cfg_of w' cs) (node_of w' s) k d) as [n t] eqn:E. cbn [fst]. rewrite node_of_set_node.
+    destruct w, w'; cbn [who_eqb]; try reflexivity; now rewrite E.
+  - destruct (switchover (node_of w' s) f) as [n t] eqn:E. cbn [fst]. rewrite node_of_set_node.
+    destruct w, w'; cbn [who_eqb]; try reflexivity; now rewrite E.
+  - destruct (switchover (node_of w' s) false) as [n t] eqn:E. cbn [fst]. rewrite node_of_set_node.
+    destruct w, w'; cbn [who_eqb]; try reflexivity; now rewrite E.
+Qed.
+
+(* ------------------------------------------------------------------ handlers, node level *)
+Definition same_track (n n' : node) : Prop :=
+  n_eff n' = n_eff n /\ n_cnt n' = n_cnt n /\ n_down n' = n_down n.
+
+Lemma start_facts n :
+  let n' := fst (sm_start n) in
+  same_track n n' /\ n_pknown n' = n_pknown n /\
+  n_st n' = match n_st n with Init => Waiting | s => s end.
+Proof. destruct n as [st e p ps k c d]; destruct st; cbn; unfold same_track; cbn; auto. Qed.
+
+Lemma switchover_facts n f :
+  let n' := fst (switchover n f) in
+  same_track n n' /\ n_pknown n' = n_pknown n /\
+  n_st n' = match n_st n with
+            | Active => Standby | Standby => Active
+            | StandbyAlone => if f then Active else StandbyAlone
+            | s => s end.
+Proof. destruct n as [st e p ps k c d]; destruct st, f; cbn; unfold same_track; cbn; auto. Qed.
+
+Lemma peer_lost_facts n :
+  let n' := fst (handle_peer_lost n) in
+  same_track n n' /\ n_pknown n' = false /\
+  n_st n' = match n_st n with
+            | Active => ActiveSolo
+            | Standby => if 0 <? n_cnt n then ActiveSolo else StandbyAlone
+            | Ready => Waiting
+            | Waiting => ActiveSolo
+            | s => s end.
+Proof.
+  destruct n as [st e p ps k c d]; destruct st; cbn; unfold same_track; cbn; auto.
+  destruct (0 <? c); cbn; auto.
+Qed.
+
+Lemma hb_facts v c n m :
+  let n' := fst (handle_hb v c n m) in
+  same_track n n' /\ n_pknown n' = true.
+Proof. cbn zeta. rewrite handle_hb_spec. unfold same_track; cbn; auto. Qed.
+
+(* handleInterfaceEvent split into its three stages *)
+Definition track_update (v : variant) (n : node) (k : nat) (down : bool) : node :=
+  if fix_if v then
+    if Bool.eqb down (mem_nat k (n_down n)) then n
+    else if down then set_track n (n_cnt n + 1) (k :: n_down n)
+         else set_track n (n_cnt n - 1) (remove_nat k (n_down n))
+  else
+    if down then set_track n (n_cnt n + 1) (n_down n)
+    else if 0 <? n_cnt n then set_track n (n_cnt n - 1) (n_down n)
+         else n.
+Definition if_delta (c : cfg) (n : node) : Z := i32 (i32 (- i32 (c_dec c)) * i32 (n_cnt n)).
+
+Lemma handle_if_eq v c n k d :
+  handle_if v c n k d =
+  if negb (tracked c k) then (n, []) else
+  let n2 := adjust_priority c (track_update v n k d) (if_delta c (track_update v n k d)) in
+  if d && sst_eqb (n_st n2) StandbyAlone then tracker_promote n2 else (n2, []).
+Proof. reflexivity. Qed.
+
+Lemma track_update_st v n k d :
+  n_st (track_update v n k d) = n_st n /\ n_pknown (track_update v n k d) = n_pknown n.
+Proof.
+  unfold track_update. destruct (fix_if v), (Bool.eqb d (mem_nat k (n_down n))), d, (0 <? n_cnt n); cbn; auto.
+Qed.
+
+Lemma if_facts v c n k d :
+  let n' := fst (handle_if v c n k d) in
+  n_pknown n' = n_pknown n /\
+  n_st n' = (if tracked c k && d && sst_eqb (n_st n) StandbyAlone then ActiveSolo else n_st n) /\
+  (tracked c k = false -> n' = n) /\
+  (tracked c k = true ->
+   let n1 := track_update v n k d in
+   n_cnt n' = n_cnt n1 /\ n_down n' = n_down n1 /\
+   n_eff n' = n_eff (adjust_priority c n1 (if_delta c n1))).
+Proof.
+  cbn zeta. rewrite handle_if_eq. destruct (tracked c k); cbn [negb andb fst].
+  2:{ repeat split; auto; discriminate. }
+  destruct (track_update_st v n k d) as [Hs Hk].
+  set (n1 := track_update v n k d) in *.
+  assert (Hst : n_st (adjust_priority c n1 (if_delta c n1)) = n_st n) by (cbn; exact Hs).
+  assert (Hpk : n_pknown (adjust_priority c n1 (if_delta c n1)) = n_pknown n) by (cbn; exact Hk).
+  rewrite Hst. destruct d; cbn [andb].
+  - destruct (n_st n) eqn:E; cbn [sst_eqb];
+      unfold tracker_promote; rewrite ?Hst; cbn [fst];
+      try (repeat split; auto; discriminate).
+    unfold transition_to. rewrite Hst. cbn. repeat split; auto; discriminate.
+  - cbn [fst]. repeat split; auto; discriminate.
+Qed.
+
+(* ------------------------------------------------------------------ reachable nodes are well formed *)
+Definition wf_node (n : node) : bool :=
+  negb (sst_eqb (n_st n) Ready) && negb (sst_eqb (n_st n) StandbyAlone && n_pknown n).
+
+Lemma hb_core_wf v pre k st mst w :
+  negb (sst_eqb st Ready) && negb (sst_eqb st StandbyAlone && k) = true ->
+  let s' := hb_core v pre (negb k) st mst w in
+  sst_eqb s' Ready = false /\ sst_eqb s' StandbyAlone = false.
+Proof.
+  destruct v as [fh fi ff]. destruct st, k; cbn; try discriminate; intros _;
+    destruct pre, fh, ff, mst, w; cbn; auto.
+Qed.
+
+Lemma step_wf v cs s e w :
+  wf_node (node_of w s) = true -> wf_node (step_node_fn v cs s e w) = true.
+Proof.
+  intros H. unfold step_node_fn.
+  destruct e as [w'|w'|w' i|w' i|w'|w' k d|w' f|w']; try exact H; destruct (who_eqb w w'); try exact H.
+  - destruct (start_facts (node_of w s)) as (_ & Hk & Hs). unfold wf_node in *. rewrite Hk, Hs.
+    destruct (n_st (node_of w s)); cbn in *; auto.
+  - destruct (nth_error _ _) as [m|]; [|exact H]. rewrite handle_hb_spec. unfold wf_node in *. cbn [n_st n_pknown].
+    destruct (hb_core_wf v (c_preempt (cfg_of w cs)) (n_pknown (node_of w s)) (n_st (node_of w s)) (h_st m)
+                (wins_raw (c_id (cfg_of w cs)) (n_eff (node_of w s)) (h_prio m) (h_id m)) H) as [E1 E2].
+    cbn zeta in E1, E2. now rewrite E1, E2.
+  - destruct (peer_lost_facts (node_of w s)) as (_ & Hk & Hs). unfold wf_node in *. rewrite Hk, Hs.
+    destruct (n_st (node_of w s)); cbn in *; auto; try discriminate.
+    destruct (0 <? n_cnt (node_of w s)); reflexivity.
+  - destruct (if_facts v (cfg_of w cs) (node_of w s) k d) as (Hk & Hs & _). unfold wf_node in *. rewrite Hk, Hs.
+    destruct (tracked (cfg_of w cs) k && d && sst_eqb (n_st (node_of w s)) StandbyAlone); [reflexivity | exact H].
+  - destruct (switchover_facts (node_of w s) f) as (_ & Hk & Hs). unfold wf_node in *. rewrite Hk, Hs.
+    destruct (n_st (node_of w s)), f; cbn in *; auto.
+  - destruct (switchover_facts (node_of w s) false) as (_ & Hk & Hs). unfold wf_node in *. rewrite Hk, Hs.
+    destruct (n_st (node_of w s)); cbn in *; auto.
+Qed.
+
+Lemma run_wf v cs es w : wf_node (node_of w (run v cs (init_pair cs) es)) = true.
+Proof.
+  induction es as [|e es IH] using rev_ind.
+  - destruct w; reflexivity.
+  - rewrite run_snoc, step_node. apply step_wf, IH.
+Qed.
+
+(* READY is never observable between two events *)
+Lemma ready_is_transient v cs es w : n_st (node_of w (run v cs (init_pair cs) es)) <> Ready.
+Proof.
+  pose proof (run_wf v cs es w) as H. unfold wf_node in H. intros E. rewrite E in H. discriminate H.
+Qed.
+
+Lemma run_started_ok v cs es w :
+  n_st (node_of w (run v cs (init_pair cs) es)) <> Init -> n_ok (node_of w (run v cs (init_pair cs) es)) = true.
+Proof.
+  pose proof (run_wf v cs es w) as H. unfold wf_node, n_ok, okn in *. intros Hi.
+  destruct (n_st _); cbn in *; try congruence; auto.
+Qed.
+
+(* ------------------------------------------------------------------ interface tracking *)
+Definition b2z (b : bool) : Z := if b then 1 else 0.
+
+Lemma down_after_snoc w k es : forall e cur,
+  down_after w k (es ++ [e]) cur =
+  match e with
+  | EIf w' k' d => if who_eqb w w' && Nat.eqb k k' then d else down_after w k es cur
+  | _ => down_after w k es cur
+  end.
+Proof.
+  induction es as [|x r IH]; intros e cur.
+  - destruct e; reflexivity.
+  - cbn [app down_after]. destruct x; apply IH.
+Qed.
+
+Lemma count_down_bounds w es n : 0 <= count_down w es n <= Z.of_nat n.
+Proof. induction n; cbn [count_down]; [lia|]. destruct (down_after w n es false); lia. Qed.
+
+Lemma count_down_nil w n : count_down w [] n = 0.
+Proof. induction n; cbn; auto. Qed.
+
+Lemma count_down_ext w es1 es2 n :
+  (forall k, (k < n)%nat -> down_after w k es1 false = down_after w k es2 false) ->
+  count_down w es1 n = count_down w es2 n.
+Proof.
+  induction n; intros H; cbn [count_down]; [reflexivity|].
+  rewrite (H n) by lia. rewrite IHn; [reflexivity|]. intros k Hk; apply H; lia.
+Qed.
+
+Lemma count_down_snoc_if w es k d n :
+  count_down w (es ++ [EIf w k d]) n =
+  count_down w es n + (if (k <? n)%nat then b2z d - b2z (down_after w k es false) else 0).
+Proof.
+  induction n; cbn [count_down]; [reflexivity|].
+  rewrite IHn, down_after_snoc. replace (who_eqb w w) with true by (destruct w; reflexivity). cbn [andb].
+  destruct (Nat.eqb_spec n k) as [E|E].
+  - subst k. replace (n <? S n)%nat with true by (symmetry; apply Nat.ltb_lt; lia).
+    replace (n <? n)%nat with false by (symmetry; apply Nat.ltb_ge; lia).
+    destruct d, (down_after w n es false); cbn [b2z]; lia.
+  - destruct (Nat.ltb_spec k n), (Nat.ltb_spec k (S n)); try lia.
+Qed.
+
+Lemma i32_id z : -2147483648 <= z < 2147483648 -> i32 z = z.
+Proof. intros H. unfold i32. rewrite Z.mod_small by lia. lia. Qed.
+
+Lemma mem_nat_cons k x l : mem_nat k (x :: l) = Nat.eqb k x || mem_nat k l.
+Proof. reflexivity. Qed.
+Lemma mem_nat_remove k x l : mem_nat k (remove_nat x l) = negb (Nat.eqb x k) && mem_nat k l.
+Proof.
+  unfold mem_nat, remove_nat.
+  induction l as [|y r IH]; cbn [filter existsb]; [now rewrite Bool.andb_false_r|].
+  destruct (Nat.eqb_spec x y) as [E|E]; cbn [negb existsb]; rewrite IH.
+  - subst y. destruct (Nat.eqb_spec k x), (Nat.eqb_spec x k); cbn; try reflexivity; lia.
+  - destruct (Nat.eqb_spec k y), (Nat.eqb_spec x k); cbn; try reflexivity; lia.
+Qed.
+
+Definition spec_cnt (c : cfg) (w : who) (es : list ev) : Z :=
+  if c_dec c =? 0 then 0 else count_down w es (c_nifs c).
+
+(* the configuration does not overflow the int32 arithmetic of handleInterfaceEvent *)
+Definition cfg_small (c : cfg) : Prop :=
+  0 <= c_prio c < 2147483648 /\ 0 <= c_dec c /\ c_dec c * Z.of_nat (c_nifs c) < 2147483648.
+
+Definition track_inv (c : cfg) (w : who) (es : list ev) (n : node) : Prop :=
+  (forall k, mem_nat k (n_down n) = tracked c k && down_after w k es false) /\
+  n_cnt n = spec_cnt c w es /\ n_eff n = spec_eff c w es.
+
+Lemma spec_eff_cnt c w es :
+  spec_eff c w es = if c_dec c =? 0 then c_prio c else Z.max 0 (c_prio c - c_dec c * spec_cnt c w es).
+Proof. unfold spec_eff, spec_cnt. destruct (c_dec c =? 0); reflexivity. Qed.
+
+Lemma track_inv_frame c w es e n n' :
+  (forall k d, e <> EIf w k d) -> same_track n n' ->
+  track_inv c w es n -> track_inv c w (es ++ [e]) n'.
+Proof.
+  intros Hne (He & Hc & Hd) (I1 & I2 & I3).
+  assert (Hda : forall k, down_after w k (es ++ [e]) false = down_after w k es false).
+  { intros k. rewrite down_after_snoc. destruct e; try reflexivity.
+    destruct (who_eqb w w0) eqn:Ew; [|reflexivity].
+    destruct (Nat.eqb_spec k k0); [|reflexivity]. subst. exfalso. apply (Hne k0 down).
+    destruct w, w0; try discriminate Ew; reflexivity. }
+  assert (Hcd : count_down w (es ++ [e]) (c_nifs c) = count_down w es (c_nifs c))
+    by (apply count_down_ext; intros; apply Hda).
+  unfold track_inv. rewrite He, Hc, Hd. repeat split.
+  - intros k. rewrite Hda. apply I1.
+  - rewrite I2. unfold spec_cnt. now rewrite Hcd.
+  - rewrite I3. unfold spec_eff. now rewrite Hcd.
+Qed.
+
+Lemma who_eqb_refl w : who_eqb w w = true.
+Proof. destruct w; reflexivity. Qed.
+
+Lemma adjust_small c n cnt :
+  cfg_small c -> c_dec c <> 0 -> (1 <= c_nifs c)%nat -> 0 <= cnt <= Z.of_nat (c_nifs c) -> n_cnt n = cnt ->
+  n_eff (adjust_priority c n (if_delta c n)) = Z.max 0 (c_prio c - c_dec c * cnt).
+Proof.
+  intros (Hp & Hd & Hm) Hnz Hnif Hc Hn. unfold adjust_priority, if_delta. cbn [n_eff set_eff]. rewrite Hn.
+  assert (Hn1 : 1 <= Z.of_nat (c_nifs c)) by lia.
+  assert (Hdn : c_dec c * 1 <= c_dec c * Z.of_nat (c_nifs c)) by (apply Z.mul_le_mono_nonneg_l; lia).
+  assert (Hdc : c_dec c * cnt <= c_dec c * Z.of_nat (c_nifs c)) by (apply Z.mul_le_mono_nonneg_l; lia).
+  assert (Hdc0 : 0 <= c_dec c * cnt) by (apply Z.mul_nonneg_nonneg; lia).
+  assert (Hnn : 1 * Z.of_nat (c_nifs c) <= c_dec c * Z.of_nat (c_nifs c)) by (apply Z.mul_le_mono_nonneg_r; lia).
+  rewrite (i32_id (c_dec c)) by lia. rewrite (i32_id (- c_dec c)) by lia.
+  rewrite (i32_id cnt) by lia.
+  replace (- c_dec c * cnt) with (- (c_dec c * cnt)) by ring.
+  rewrite (i32_id (- (c_dec c * cnt))) by lia. rewrite (i32_id (c_prio c)) by lia.
+  rewrite (i32_id (c_prio c + - (c_dec c * cnt))) by lia.
+  destruct (Z.ltb_spec (c_prio c + - (c_dec c * cnt)) 0); lia.
+Qed.
+
+Lemma track_inv_if v c w es n k d :
+  fix_if v = true -> cfg_small c ->
+  track_inv c w es n -> track_inv c w (es ++ [EIf w k d]) (fst (handle_if v c n k d)).
+Proof.
+  intros Hf Hsm (I1 & I2 & I3).
+  assert (Hda : forall k', down_after w k' (es ++ [EIf w k d]) false =
+                           if Nat.eqb k' k then d else down_after w k' es false).
+  { intros k'. rewrite down_after_snoc, who_eqb_refl. reflexivity. }
+  destruct (if_facts v c n k d) as (_ & _ & Hun & Htr). cbn zeta in *.
+  destruct (tracked c k) eqn:T.
+  - (* tracked interface *)
+    destruct (Htr eq_refl) as (Hc & Hd & He). clear Hun Htr.
+    assert (Hdec : c_dec c <> 0).
+    { unfold tracked in T. destruct (Z.eqb_spec (c_dec c) 0); [discriminate T | assumption]. }
+    assert (Hk : (k < c_nifs c)%nat).
+    { unfold tracked in T. apply andb_prop in T. destruct T as [_ T]. now apply Nat.ltb_lt. }
+    pose proof (I1 k) as Hmem. rewrite T in Hmem. cbn [andb] in Hmem.
+    set (was := down_after w k es false) in *.
+    assert (Hcnt1 : n_cnt (track_update v n k d) = spec_cnt c w (es ++ [EIf w k d])).
+    { unfold spec_cnt in *. destruct (Z.eqb_spec (c_dec c) 0); [contradiction|].
+      rewrite count_down_snoc_if. replace (k <? c_nifs c)%nat with true by (symmetry; now apply Nat.ltb_lt).
+      fold was. unfold track_update. rewrite Hf, Hmem.
+      destruct d, was; cbn [Bool.eqb set_track n_cnt b2z]; lia. }
+    assert (Hdn1 : forall k', mem_nat k' (n_down (track_update v n k d)) =
+                              tracked c k' && (if Nat.eqb k' k then d else down_after w k' es false)).
+    { intros k'. unfold track_update. rewrite Hf, Hmem.
+      destruct (Nat.eqb_spec k' k) as [E|E].
+      - subst k'. rewrite T. cbn [andb].
+        destruct d, was eqn:Ew; cbn [Bool.eqb set_track n_down]; try exact Hmem.
+        + rewrite mem_nat_cons, Nat.eqb_refl. reflexivity.
+        + rewrite mem_nat_remove, Nat.eqb_refl. reflexivity.
+      - destruct d, was eqn:Ew; cbn [Bool.eqb set_track n_down]; try apply I1.
+        + rewrite mem_nat_cons. destruct (Nat.eqb_spec k' k); [contradiction|]. cbn [orb]. apply I1.
+        + rewrite mem_nat_remove. destruct (Nat.eqb_spec k k'); [congruence|]. cbn [negb andb]. apply I1. }
+    unfold track_inv. repeat split.
+    + intros k'. rewrite Hd, Hda. apply Hdn1.
+    + now rewrite Hc.
+    + rewrite He, spec_eff_cnt. destruct (Z.eqb_spec (c_dec c) 0); [contradiction|].
+      apply adjust_small; auto; [lia|].
+      unfold spec_cnt. destruct (c_dec c =? 0); [lia|].
+      apply count_down_bounds.
+  - (* untracked interface: ignored *)
+    rewrite (Hun eq_refl). clear Hun Htr.
+    assert (Hcd : spec_cnt c w (es ++ [EIf w k d]) = spec_cnt c w es).
+    { unfold spec_cnt. destruct (Z.eqb_spec (c_dec c) 0); [reflexivity|].
+      rewrite count_down_snoc_if.
+      unfold tracked in T. destruct (Z.eqb_spec (c_dec c) 0); [contradiction|]. cbn [negb andb] in T.
+      rewrite T. lia. }
+    unfold track_inv. repeat split.
+    + intros k'. rewrite Hda. destruct (Nat.eqb_spec k' k) as [E|E]; [|apply I1].
+      subst k'. rewrite T. cbn [andb]. rewrite I1, T. reflexivity.
+    + now rewrite Hcd.
+    + rewrite I3, !spec_eff_cnt, Hcd. reflexivity.
+Qed.
+
+Lemma track_inv_init c w : 0 <= c_prio c -> track_inv c w [] (init_node c).
+Proof.
+  intros Hp. unfold track_inv, init_node, spec_cnt, spec_eff. cbn [n_down n_cnt n_eff mem_nat existsb down_after].
+  rewrite count_down_nil. repeat split.
+  - intros k. now rewrite Bool.andb_false_r.
+  - destruct (c_dec c =? 0); reflexivity.
+  - destruct (c_dec c =? 0); lia.
+Qed.
+
+Lemma run_track_inv v cs w es :
+  fix_if v = true -> cfg_small (cfg_of w cs) ->
+  track_inv (cfg_of w cs) w es (node_of w (run v cs (init_pair cs) es)).
+Proof.
+  intros Hf Hsm. induction es as [|e es IH] using rev_ind.
+  - destruct w; cbn [run node_of init_pair p_a p_b cfg_of] in *; apply track_inv_init; destruct Hsm; lia.
+  - rewrite run_snoc, step_node. set (s := run v cs (init_pair cs) es) in *.
+    unfold step_node_fn.
+    destruct e as [w'|w'|w' i|w' i|w'|w' k d|w' f|w'].
+    + apply track_inv_frame with (n := node_of w s); [discriminate| |exact IH].
+      destruct (who_eqb w w'); [apply start_facts | unfold same_track; auto].
+    + apply track_inv_frame with (n := node_of w s); [discriminate|unfold same_track; auto|exact IH].
+    + apply track_inv_frame with (n := node_of w s); [discriminate| |exact IH].
+      destruct (who_eqb w w'); [|unfold same_track; auto].
+      destruct (nth_error _ _); [apply hb_facts | unfold same_track; auto].
+    + apply track_inv_frame with (n := node_of w s); [discriminate|unfold same_track; auto|exact IH].
+    + apply track_inv_frame with (n := node_of w s); [discriminate| |exact IH].
+      destruct (who_eqb w w'); [apply peer_lost_facts | unfold same_track; auto].
+    + destruct (who_eqb w w') eqn:Ew.
+      * assert (w' = w) by (destruct w, w'; try discriminate Ew; reflexivity). subst w'.
+        apply track_inv_if; assumption.
+      * apply track_inv_frame with (n := node_of w s); [|unfold same_track; auto|exact IH].
+        intros k' d' E. inversion E; subst. rewrite who_eqb_refl in Ew. discriminate Ew.
+    + apply track_inv_frame with (n := node_of w s); [discriminate| |exact IH].
+      destruct (who_eqb w w'); [apply switchover_facts | unfold same_track; auto].
+    + apply track_inv_frame with (n := node_of w s); [discriminate| |exact IH].
+      destruct (who_eqb w w'); [apply switchover_facts | unfold same_track; auto].
+Qed.
+
+Lemma effective_priority v cs w es :
+  fix_if v = true -> cfg_small (cfg_of w cs) ->
+  n_eff (node_of w (run v cs (init_pair cs) es)) = spec_eff (cfg_of w cs) w es.
+Proof. intros Hf Hsm. apply (run_track_inv v cs w es Hf Hsm). Qed.
